@@ -4,7 +4,7 @@ import TaskModel.Sched.ActMon
 parent knows about its finished kids.  `kidInv_sound` lifts a per-activation invariant
 that may mention the (stable) results of finished activations to every reachable
 configuration. -/
-namespace TaskModel.Sched
+namespace TaskModel.Sched.S2
 
 /-- exactly how a parent gains a kid -/
 theorem enterCheck_act' (F : Flags) (c : Config) (a : Nat) (kind : Kind) (t p : Nat) (px' : Act)
@@ -180,4 +180,4 @@ theorem kidInv_sound (P : Program) (F : Flags) (Φ : (Nat → Option Res) → Ac
   · intro a x hx
     simp [init, Config.act?] at hx
 
-end TaskModel.Sched
+end TaskModel.Sched.S2
